@@ -121,6 +121,8 @@ func (g *Genome) mutateConnectSensors(innovations InnovationsObserver, _ *neat.O
 			if gene != nil {
 				g.geneInsert(gene)
 				linkAdded = true
+				// a network expressed earlier predates the new gene - drop it
+				g.Phenotype = nil
 			}
 		}
 	}
@@ -440,6 +442,8 @@ func (g *Genome) mutateAddNode(innovations InnovationsObserver, nodeIdGenerator 
 		g.geneInsert(gene1)
 		g.geneInsert(gene2)
 		g.nodeInsert(node)
+		// a network expressed earlier predates the new node and genes - drop it, add-link consults it for its recurrence test
+		g.Phenotype = nil
 		return true, nil
 	}
 	// failed to create node or connecting genes
